@@ -124,6 +124,8 @@ def generate(tier, rng):
         d = gen_definition(rng, k)
         via = ["direct", "reader", "csv", "excel", "direct", "csv"][k % 6]
         d = dict(d, spell=(k // 2) % 2)     # definitions written with the field names instead of their aliases
+        if via == "direct" and k % 4 < 2:
+            d["prebuild"] = NAMINGS[(NAMINGS.index(d["naming"]) + 1 + k % 2) % 3]
         cases.append(dict(stream="valid", kind="build", defn=d, via=via, fault=None, sheet=(k % 2 == 0), orient=["row", "col"][k % 2], header=(k % 3 == 0)))
         f = FAULTS[k % len(FAULTS)]
         fd = inject_fault(rng, d, f)
@@ -237,6 +239,11 @@ def run_impl(case):
                 dims = dd.fl_dims_t([DIMS[l] for l in d["letters"]])
                 procs = fd.make_processes(defn.processes)
                 naming = dict(arrow=fn.process_names_with_arrow, nospaces=fn.process_names_no_spaces, ids=fn.process_ids)[d["naming"]]
+                if d.get("prebuild"):
+                    # the same definition objects were already used for another build with another naming function
+                    other = dict(arrow=fn.process_names_with_arrow, nospaces=fn.process_names_no_spaces, ids=fn.process_ids)[d["prebuild"]]
+                    fd.make_empty_flows(processes=procs, flow_definitions=defn.flows, dims=dims, naming=other)
+                    fd.make_empty_stocks(defn.stocks, processes=procs, dims=dims)
                 flows = fd.make_empty_flows(processes=procs, flow_definitions=defn.flows, dims=dims, naming=naming)
                 stocks = fd.make_empty_stocks(defn.stocks, processes=procs, dims=dims)
                 return dict(kind="ok", value=_observe_system((procs, flows, stocks, None)))
